@@ -616,6 +616,23 @@ func runEndBlock(t *testing.T, run *emit.Run, r *rand.Rand, stateStore storetype
 		elected := uint64(0)
 		nops := 2 + r.Intn(12)
 		for j := 0; j < nops; j++ {
+			if r.Intn(8) == 0 {
+				// the message is handed to another relayer (the step ReassignOrphanedMessages performs per message; it has no
+				// production caller at this HEAD, driven through C06's hook): estimates and an elected estimate are untouched
+				if err := k.VerifReassignMessageValidator(ctx, valAddr(r.Intn(10)).String(), "0x00000000000000000000000000000000000000b2", id, qname); err != nil {
+					t.Fatal(err)
+				}
+				mm, err := k.GetMessagesFromQueue(ctx, qname, 0)
+				if err != nil || len(mm) != 1 {
+					t.Fatalf("queue read: %v (%d msgs)", err, len(mm))
+				}
+				if mm[0].GetGasEstimate() != elected || len(mm[0].GetGasEstimates()) != len(stored) {
+					run.Violate("C04:elected-estimate-changed", fmt.Sprintf("re-assigning the message to another relayer changed its elected estimate %d -> %d (or its estimates)", elected, mm[0].GetGasEstimate()),
+						map[string]any{"snapshot": coqSnapshot(ids, shares, tot), "ops": append(append([]string{}, ops...), "reassign to another validator")})
+				}
+				run.Count("endblock", "reassigned")
+				continue
+			}
 			if r.Intn(3) != 0 {
 				v := r.Intn(10)
 				if r.Intn(3) != 0 && len(ids) > 0 {
